@@ -1011,6 +1011,34 @@ def emitted_cases(mods, srcs):
   return [c for c in calls if len(c) == 4]
 
 
+def family_units(pytd):
+  N, G, U = pytd.NamedType, pytd.GenericType, pytd.UnionType
+  g = lambda b, *ts: G(N(b), tuple(ts))
+  i, s, b, f, n = N("int"), N("str"), N("bool"), N("float"), N("NoneType")
+  tys = [
+      U((g("list", g("list", i)), g("list", g("list", b)))),
+      U((g("list", g("list", i)), g("list", g("list", s)), g("list", g("set", s)))),
+      U((g("dict", s, g("list", i)), g("dict", s, g("list", s)))),
+      U((g("dict", s, g("dict", s, i)), g("dict", i, g("dict", s, f)))),
+      U((g("set", g("set", i)), g("set", g("set", s)), n)),
+      U((g("list", g("list", g("list", i))), g("list", g("list", g("list", s))))),
+      U((g("list", g("dict", s, g("list", i))), g("list", g("dict", s, g("list", f))))),
+      U((g("list", U((g("list", i), g("list", s)))), g("list", g("list", f)))),
+      g("list", U((g("list", i), g("list", b)))),
+      U((g("list", i), g("list", s), g("set", i), g("set", s))),
+  ]
+  units = []
+  consts = tuple(pytd.Constant("x%d" % k, t) for k, t in enumerate(tys))
+  units.append(_mk(pytd, constants=consts))
+  fns = []
+  for k, t in enumerate(tys):
+    fns.append(_fn(pytd, "f%d" % k, [_sig(pytd, [("a", t)], t)]))
+    if isinstance(t, pytd.UnionType):
+      fns.append(_fn(pytd, "o%d" % k, [_sig(pytd, [("a", i)], m) for m in t.type_list]))
+  units.append(_mk(pytd, functions=tuple(fns)))
+  return units
+
+
 def correspond(res, rng, tier):
   mods = load_mods()
   pytd, vis = mods["pytd"], mods["visitors"]
@@ -1041,6 +1069,13 @@ def correspond(res, rng, tier):
     n_decl += len(u.constants) + len(u.functions) + len(u.classes) + len(u.aliases)
     cases.append(Case("generated", u, deps_h, o, Codec(pytd)))
     case_deps.append(deps)
+  # deterministic family: unions of same-base containers whose parameters are again same-base containers (depth 2 and
+  # 3), as constants, parameters, returns and overloads, under the settings that decide which passes run
+  for u in family_units(pytd):
+    for o in (dict(PYTYPE_OPTS), dict(PYTYPE_OPTS, remove_mutable=True), dict(PYTYPE_OPTS, deps=False),
+              dict(PYTYPE_OPTS, max_union=2), dict(PYTYPE_OPTS, lossy=True)):
+      cases.append(Case("family", u, hdeps[0][1], o, Codec(pytd)))
+      case_deps.append(hdeps[0][0])
   for c, deps in zip(cases, case_deps):
     try:
       c.real = real_optimize(mods, c.unit, deps, c.opts)
